@@ -1522,7 +1522,7 @@ pub fn sample_migration_state(salt: u64, lo: u32, hi: u32, nfs: &[[u8; 32]]) -> 
 /// Everything the SQLite migration store answers about an account's pending migration through its read
 /// interface: one (call, answer) pair per library call (each call is one read of the database and must be
 /// consistent in itself).
-pub fn render_migration_reads(net: zcash_protocol::local_consensus::LocalNetwork, conn: &Connection, acct: zcash_client_sqlite::AccountUuid, tag: &str) -> Vec<(String, String)> {
+pub fn render_migration_reads(net: zcash_protocol::local_consensus::LocalNetwork, conn: &Connection, acct: zcash_client_sqlite::AccountUuid, tag: &str, mark: &dyn Fn()) -> Vec<(String, String)> {
     let pm = match PoolMigrations::for_account(net, SimClock(std::sync::Arc::new(1_700_000_000.into())), conn, acct) {
         Ok(pm) => pm,
         Err(e) => return vec![(format!("{tag}/for_account"), format!("ERR {e:?}"))],
@@ -1536,6 +1536,7 @@ pub fn render_migration_reads(net: zcash_protocol::local_consensus::LocalNetwork
     for t in state.transactions() {
         let key = hex::encode(&t.txid().as_ref()[..6]);
         if !matches!(t.state(), MigrationTxState::Mined { .. }) {
+            mark();
             out.push((format!("{tag}/sat/{key}"), format!("{:?}", pm.check_step_satisfiability(t, ReorgSettleDepth::new(3)).map_err(|e| format!("{e:?}")))));
         }
         out.push((format!("{tag}/mined_height/{key}"), format!("{:?}", pm.mined_height(t.txid()).map_err(|e| format!("{e:?}")))));
